@@ -487,6 +487,9 @@ pub fn check_failure(spec: &AppSpec, k: usize, route: &RouteInfo, plan: &[(Strin
     if specific.is_some() {
         labels.push("component-specific-error-handler".to_string());
     }
+    if want_eh.is_some_and(|h| matches!(spec.comps[h].kind, CompKind::ErrHandler { err, .. } if err == crate::spec::FALLBACK_ERR)) {
+        labels.push("error-goes-to-the-user-fallback-handler".to_string());
+    }
     let want_obs: Vec<String> = route.observers.iter().map(|o| comp_name(k, *o)).collect();
     for (n, fp) in fail_positions.iter().enumerate() {
         let seg_end = fail_positions.get(n + 1).copied().unwrap_or(e.len());
@@ -548,7 +551,11 @@ pub fn check_failure(spec: &AppSpec, k: usize, route: &RouteInfo, plan: &[(Strin
     match want_eh {
         Some(h) => {
             let want = comp_name(k, h);
-            let status = 430 + (err_ty as u64 % 20);
+            // (the status encodes the error type the handler was written for: the fallback handler has one of its own)
+            let status = match &spec.comps[h].kind {
+                CompKind::ErrHandler { err, .. } => 430 + (*err as u64 % 20),
+                _ => 430 + (err_ty as u64 % 20),
+            };
             if resp["status"].as_u64() != Some(status) || resp["body"].as_str() != Some(format!("eh:{want}").as_str()) {
                 return Err((
                     "response-not-from-error-handler".into(),
